@@ -1212,6 +1212,19 @@ def check_C09(ck):
         cases.append(("fq2/norm", "fq2 norm %s" % _f2s(a))); exp.append("%x" % ((a[0] * a[0] + a[1] * a[1]) % Q))
         for k in (list(range(0, 8)) + [2 ** 32, 2 ** 64 - 1]) if a in sp2[-3:] or thorough else (0, 1, 2, 3):
             cases.append(("fq2/frob", "fq2 frob %s %x" % (_f2s(a), k))); exp.append(_f2s(F2.pow(a, Q ** (k % 2))))
+    # cross product: every unary Fq2 operation on (s, 0), (0, s), (s, s), (s, s') for every structured value s
+    # (canonical limb patterns and Montgomery-raw patterns), and every binary operation with a structured RIGHT and LEFT operand
+    ls2 = limb_specials(rng, 1)
+    gen2 = r2()
+    for i_, s_ in enumerate(ls2):
+        for a in ((s_, 0), (0, s_), (s_, s_), (s_, ls2[(i_ + 3) % len(ls2)])):
+            for (op, fn) in (("sq", lambda x: F2.mul(x, x)), ("dbl", lambda x: F2.add(x, x)), ("neg", F2.neg), ("nonres", lambda x: F2.mul(x, O.XI))):
+                cases.append(("fq2/structured/" + op, "fq2 %s %s" % (op, _f2s(a)))); exp.append(_f2s(fn(a)))
+            cases.append(("fq2/structured/inv", "fq2 inv %s" % _f2s(a))); exp.append("none" if a == (0, 0) else _f2s(F2.inv(a)))
+            cases.append(("fq2/structured/norm", "fq2 norm %s" % _f2s(a))); exp.append("%x" % ((a[0] * a[0] + a[1] * a[1]) % Q))
+            for (op, fn) in (("mul", F2.mul), ("add", F2.add), ("sub", F2.sub)):
+                cases.append(("fq2/structured/%s-right" % op, "fq2 %s %s %s" % (op, _f2s(gen2), _f2s(a)))); exp.append(_f2s(fn(gen2, a)))
+                cases.append(("fq2/structured/%s-left" % op, "fq2 %s %s %s" % (op, _f2s(a), _f2s(gen2)))); exp.append(_f2s(fn(a, gen2)))
     e = rng.randrange(1, Q)
     sp2 += [(e, e), (e, (-e) % Q), (e, 0), (0, e)]
     sp6 = [O.F6_ZERO, O.F6_ONE, ((e, e), (e, e), (e, e)), ((e, 0), (e, 0), (e, 0)), ((0, 0), (0, 0), r2()), (r2(), r2(), (0, 0)), ((0, 0), (1, 0), (0, 0)), ((0, 0), (0, 0), (1, 0)), ((rng.randrange(Q), 0), (0, 0), (0, 0)), (r2(), (0, 0), (0, 0)), ((0, 0), r2(), (0, 0))] + [r6() for _ in range(3)]
